@@ -42,12 +42,15 @@ type pairModel struct {
 	// slice of them) because every call passes such a value
 	assumed    map[ssa.Value]bool
 	helperBusy map[*ssa.Function]bool
-	adds       []removeSite
-	removes    []removeSite
-	loads      []removeSite
-	inits      []removeSite
-	unknown    []removeSite
-	ok         bool
+	// fnBind: function-valued parameters of a helper under analysis, bound to the function the
+	// call being examined passes (forEachMessage(removed, s.enforcer.removed))
+	fnBind  map[ssa.Value]*ssa.Function
+	adds    []removeSite
+	removes []removeSite
+	loads   []removeSite
+	inits   []removeSite
+	unknown []removeSite
+	ok      bool
 }
 
 func (c *Ctx) pairing() *pairModel {
@@ -55,8 +58,14 @@ func (c *Ctx) pairing() *pairModel {
 	m := &pairModel{c: c}
 	m.memMsgs = p.Field("pkg/storage/mem", "mbox", "messages")
 	m.fileMsgs = p.Field("pkg/storage/file", "mbox", "messages")
-	m.fRemove = p.Field("pkg/storage/mem", "Store", "remove")
-	m.fIncoming = p.Field("pkg/storage/mem", "Store", "incoming")
+	m.fIncoming, m.fRemove = memEnforcerChans(p)
+	if m.fIncoming == nil || m.fRemove == nil {
+		// the loop's shape was not recognised: the fields by their names, if they are there
+		m.fIncoming, m.fRemove = p.OptField("pkg/storage/mem", "Store", "incoming"), p.OptField("pkg/storage/mem", "Store", "remove")
+	}
+	if m.fIncoming == nil || m.fRemove == nil {
+		p.Unresolved = append(p.Unresolved, "pkg/storage/mem: the size enforcer's two request channels (struct fields of type chan *T, T holding a *Message, received in one select loop; the arm that pushes onto the list is the incoming one)")
+	}
 	m.fDeleted = p.Field("pkg/extension", "Events", "AfterMessageDeleted")
 	m.fStored = p.Field("pkg/extension", "Events", "AfterMessageStored")
 	m.makeMeta = p.Func("pkg/message", "MakeMetadata")
@@ -475,20 +484,36 @@ func (m *pairModel) removedOrigin(v ssa.Value, depth int) bool {
 		}
 		return true
 	case *ssa.Call:
-		g := eng.StaticCallee(x.Common())
-		if g == nil || !eng.InModule(g) || g.Blocks == nil {
+		gs := []*ssa.Function{eng.StaticCallee(x.Common())}
+		if gs[0] == nil && !x.Call.IsInvoke() {
+			// a call through a function-valued field (e.evict = s.removeMessage): every function
+			// the call graph resolves it to
+			gs = nil
+			for _, g := range m.c.P.Callees(x) {
+				gs = append(gs, eng.UnwrapBound(g))
+			}
+		}
+		if len(gs) == 0 {
 			return false
 		}
-		okAll, n := true, 0
-		eng.EachInstr(g, func(in ssa.Instruction) {
-			if ret, ok := in.(*ssa.Return); ok && len(eng.ReturnResults(ret)) == 1 {
-				n++
-				if !m.removedOrigin(eng.ReturnResults(ret)[0], depth+1) {
-					okAll = false
-				}
+		for _, g := range gs {
+			if g == nil || !eng.InModule(g) || g.Blocks == nil {
+				return false
 			}
-		})
-		return okAll && n > 0
+			okAll, n := true, 0
+			eng.EachInstr(g, func(in ssa.Instruction) {
+				if ret, ok := in.(*ssa.Return); ok && len(eng.ReturnResults(ret)) == 1 {
+					n++
+					if !m.removedOrigin(eng.ReturnResults(ret)[0], depth+1) {
+						okAll = false
+					}
+				}
+			})
+			if !okAll || n == 0 {
+				return false
+			}
+		}
+		return true
 	case *ssa.UnOp:
 		if x.Op != token.MUL {
 			return false
@@ -591,7 +616,7 @@ func (m *pairModel) deletedEmitPred() eng.Pred {
 func (m *pairModel) enforcerRemovePred() eng.Pred {
 	return func(in ssa.Instruction) bool {
 		call, ok := in.(*ssa.Call)
-		if !ok || eng.StaticCallee(call.Common()) != m.enforcerRm {
+		if !ok || m.calleeOf(call.Common()) != m.enforcerRm {
 			return false
 		}
 		args := call.Call.Args
@@ -615,7 +640,7 @@ func (m *pairModel) nothingRemovedEdge(b *ssa.BasicBlock, k int, allowEnforcerOf
 			if m.removedOrigin(x, 0) && !eng.IsNilConst(x) {
 				return true
 			}
-			if allowEnforcerOff && eng.SameField(eng.LoadedField(x), m.fRemove) {
+			if allowEnforcerOff && (eng.SameField(eng.LoadedField(x), m.fRemove) || m.holdsEnforcer(eng.LoadedField(x))) {
 				return true
 			}
 		}
@@ -948,21 +973,40 @@ func (m *pairModel) orViaHelper(pred eng.Pred, allowOff bool) eng.Pred {
 		if !ok {
 			return false
 		}
-		g := eng.StaticCallee(call.Common())
+		g := m.calleeOf(call.Common())
 		if g == nil || !eng.InModule(g) || len(g.Blocks) == 0 || g.Parent() != nil || eng.FuncPkgPath(g) != eng.FuncPkgPath(in.Parent()) {
 			return false
 		}
 		if g == m.enforcerRm || g == m.enforcerDlv || g == m.enforcerLoop || m.helperBusy[g] {
 			return false
 		}
+		// a call through a bound method value carries its receiver in the closure
+		off := 0
+		if eng.StaticCallee(call.Common()) == nil && len(g.Params) > len(call.Call.Args) {
+			off = len(g.Params) - len(call.Call.Args)
+		}
 		var prms []ssa.Value
+		var bound []ssa.Value
 		for i, a := range call.Call.Args {
+			i += off
 			if i >= len(g.Params) || eng.IsNilConst(a) {
+				continue
+			}
+			if _, isFn := a.Type().Underlying().(*types.Signature); isFn {
+				if fn, isNil, ok := eng.FuncValueOf(a); ok && !isNil && fn != nil {
+					if m.fnBind == nil {
+						m.fnBind = map[ssa.Value]*ssa.Function{}
+					}
+					if _, had := m.fnBind[g.Params[i]]; !had {
+						m.fnBind[g.Params[i]] = fn
+						bound = append(bound, g.Params[i])
+					}
+				}
 				continue
 			}
 			switch a.Type().Underlying().(type) {
 			case *types.Slice, *types.Map:
-				if m.isRemovedSlice(a, 0) {
+				if m.isRemovedSlice(a, 0) || m.isMsgContainer(a, 0) {
 					prms = append(prms, g.Params[i])
 				}
 			case *types.Pointer, *types.Interface:
@@ -971,6 +1015,11 @@ func (m *pairModel) orViaHelper(pred eng.Pred, allowOff bool) eng.Pred {
 				}
 			}
 		}
+		defer func() {
+			for _, v := range bound {
+				delete(m.fnBind, v)
+			}
+		}()
 		if len(prms) == 0 {
 			return false
 		}
@@ -1005,4 +1054,138 @@ func (m *pairModel) orViaHelper(pred eng.Pred, allowOff bool) eng.Pred {
 		return (&eng.Search{Target: eng.IsReturn, Avoid: ext, Edge: edgeOK}).FromEntry(g) == nil
 	}
 	return ext
+}
+
+// memEnforcerChans finds the two request channels of the memory store's size enforcer by role:
+// struct fields of the package of type chan *T where T holds a *Message, both received in one
+// select; the arm that pushes onto a container/list is the channel of new messages, the other
+// the channel of removals. They may be fields of the Store or of an enforcer type of its own.
+func memEnforcerChans(p *eng.Prog) (incoming, remove *types.Var) {
+	msg := p.Named("pkg/storage/mem", "Message")
+	if msg == nil {
+		return nil, nil
+	}
+	isReq := func(t types.Type) bool {
+		ch, ok := t.Underlying().(*types.Chan)
+		if !ok {
+			return false
+		}
+		pt, ok := ch.Elem().(*types.Pointer)
+		if !ok {
+			return false
+		}
+		st, ok := pt.Elem().Underlying().(*types.Struct)
+		if !ok {
+			return false
+		}
+		for i := 0; i < st.NumFields(); i++ {
+			if fp, ok := st.Field(i).Type().(*types.Pointer); ok && types.Identical(fp.Elem(), msg) {
+				return true
+			}
+		}
+		return false
+	}
+	for _, fn := range pkgFuncs(p, "pkg/storage/mem") {
+		for _, b := range fn.Blocks {
+			for _, in := range b.Instrs {
+				sel, ok := in.(*ssa.Select)
+				if !ok {
+					continue
+				}
+				var fields []*types.Var
+				for _, st := range sel.States {
+					ch := eng.StripConv(st.Chan)
+					if prm, isP := ch.(*ssa.Parameter); isP {
+						ch = eng.StripConv(p.Actual(prm))
+					}
+					f := eng.LoadedField(ch)
+					if st.Dir != types.RecvOnly || f == nil || !isReq(f.Type()) {
+						fields = nil
+						break
+					}
+					fields = append(fields, f)
+				}
+				if len(fields) != 2 {
+					continue
+				}
+				// which arm pushes? the select's index result is compared with the arm number
+				var idx ssa.Value
+				if sel.Referrers() != nil {
+					for _, ref := range *sel.Referrers() {
+						if ex, ok := ref.(*ssa.Extract); ok && ex.Index == 0 {
+							idx = ex
+						}
+					}
+				}
+				if idx == nil {
+					continue
+				}
+				pushArm := -1
+				for _, bb := range fn.Blocks {
+					for k := range bb.Succs {
+						rel, ok := eng.EdgeRel(bb, k)
+						if !ok || rel.Op != token.EQL || rel.X != idx || len(bb.Succs) != 2 {
+							continue
+						}
+						arm, isC := eng.ConstInt(rel.Y)
+						if !isC || arm < 0 || arm > 1 {
+							continue
+						}
+						for _, cb := range fn.Blocks {
+							if !eng.EdgeDominates(bb, k, cb) {
+								continue
+							}
+							for _, ci := range cb.Instrs {
+								if call, ok := ci.(*ssa.Call); ok && eng.CalleeName(call.Common()) == "(*container/list.List).PushBack" {
+									pushArm = int(arm)
+								}
+							}
+						}
+					}
+				}
+				if pushArm < 0 {
+					continue
+				}
+				return fields[pushArm], fields[1-pushArm]
+			}
+		}
+	}
+	return nil, nil
+}
+
+// calleeOf: the static callee, or the function a function-valued parameter of the helper under
+// analysis is bound to at the call being examined.
+func (m *pairModel) calleeOf(cc *ssa.CallCommon) *ssa.Function {
+	if g := eng.StaticCallee(cc); g != nil {
+		return g
+	}
+	if cc.IsInvoke() {
+		return nil
+	}
+	if fn, ok := m.fnBind[cc.Value]; ok {
+		return fn
+	}
+	return nil
+}
+
+// holdsEnforcer: f is a pointer field to the struct that owns the enforcer's removal channel
+// (Store.enforcer *sizeEnforcer): nil means no size limit is configured.
+func (m *pairModel) holdsEnforcer(f *types.Var) bool {
+	if f == nil || m.fRemove == nil {
+		return false
+	}
+	pt, ok := f.Type().(*types.Pointer)
+	if !ok {
+		return false
+	}
+	st, ok := pt.Elem().Underlying().(*types.Struct)
+	if !ok {
+		return false
+	}
+	for i := 0; i < st.NumFields(); i++ {
+		if st.Field(i) == m.fRemove {
+			return true
+		}
+	}
+	return false
 }
